@@ -4,16 +4,16 @@ CONSTANTS
   Nodes = {"n1"}
   PodNames = {"p1"}
   VMNames = {}
-  BlockIds = {"10.0.1.0/30", "10.0.2.0/30"}
+  BlockIds = {"10.0.1.0/30"}
   IPsOf <- IPsTiny
   PodIPChoices <- IPChoices1
   AllocChoices <- QuickChoices
-  Cap = 12
+  Cap = 6
   ShortSleep = 3
   LongSleep = 27
-  MaxSyncs = 3
+  MaxSyncs = 2
   MaxSeq = 2
-  MaxFail = 1
+  MaxFail = 0
 INIT IInit
 NEXT INext
 INVARIANTS CallsOK Live Consistent
